@@ -719,6 +719,11 @@ func (rm RoundingMode) round(shift, neg bool, sig uint128, exp int16, trunc int8
 							sig = sig.mul64(10)
 							exp--
 						}
+
+						if exp > minBiasedExponent && sig == (uint128{0, 0x0000_4000_0000_0000}) {
+							sig = sig.mul64(10)
+							exp--
+						}
 					} else {
 						exp = minBiasedExponent
 					}
